@@ -215,6 +215,10 @@ type Raft struct {
 	// read-only operation may only be confirmed by a round started after it was submitted.
 	heartbeatRound uint64
 
+	// Indicates that this node has been started and stopped. A stopped node has released
+	// its persisted state and must restore it when it is started again.
+	stopped bool
+
 	wg sync.WaitGroup
 
 	mu sync.Mutex
@@ -446,6 +450,12 @@ func (r *Raft) start(restore bool) error {
 		return nil
 	}
 
+	// A node that was stopped has closed its log: it cannot be started again
+	// without restoring its state from non-volatile storage.
+	if r.stopped && !restore {
+		return errors.New("node has been started and stopped before: Restart should be called instead")
+	}
+
 	if restore {
 		if err := r.restore(); err != nil {
 			return fmt.Errorf("could not restore state: %w", err)
@@ -506,6 +516,7 @@ func (r *Raft) Stop() {
 	}
 
 	r.state = Shutdown
+	r.stopped = true
 	r.applyCond.Broadcast()
 	r.commitCond.Broadcast()
 	r.readOnlyCond.Broadcast()
